@@ -718,7 +718,7 @@ func cmdLogModel(args []string) int {
 			"samples": []any{map[string]any{"operation_sequences": sample}},
 		},
 		Assumptions: []string{"the abstract log model in harness/cmd/rv/logmodel.go is correct", "acknowledgements are issued only under the documented precondition of unstable.stableTo"}}
-	if err := writeEvidence(fmt.Sprintf("%s/evidence/C18.json", verifDir()), ev); err != nil {
+	if err := writeEvidence(fmt.Sprintf("%s/C18.json", evidenceDir()), ev); err != nil {
 		fmt.Println("cannot write evidence:", err)
 		return 2
 	}
